@@ -12,6 +12,7 @@ void wl_maybe_yield(uint64_t h, int yield_pm);
 uint64_t wl_blocks_of(const void *th);     /* BLOCK probe events of a thread */
 extern uint64_t wl_total_blocks;
 void wl_set_probe_cb(mvsim_probe_cb_t cb);
+extern long wl_def_stack_extra;
 static inline uint64_t wl_mix(uint64_t a, uint64_t b) { uint64_t x = a ^ (b * 0x9e3779b97f4a7c15ULL); return mvsim_splitmix(&x); }
 extern uint32_t mvh_run_flags;
 #ifdef __cplusplus
